@@ -1,15 +1,29 @@
 """C15 — compiled numeric primitives compute exactly what Python computes.
 
-1. T  translate/cfast.py: the C fast paths of CPy.h / mypyc_util.h / int_ops.c -> Gen/CFast.lean (every run);
-      theorems of Props/C15 are about those generated definitions (`ctx.prove`).
-2. K  one mypyc-compiled harness module (a function per operation × type; opt levels 0 and 3, C compiled
-      from the checked tree's lib-rt) is driven on the boundary set and on random operands; every case is
-      evaluated three ways: CPython (the same source, interpreted), the compiled module, and — where the
-      operation maps to a translated C function or to the hand model of the fixed-width lowering — the
-      Lean model (driver).
-3. S  the search is the same run: a case on which the model contradicts Python's result (possible only
-      when a proof obligation broke) is by construction also a compiled-vs-CPython case; a concrete
-      difference inside the property's domain is reported with its operands.
+1. T  two translators, re-run on every check against `core.REPO`:
+        translate/cfast.py  the C fast paths of CPy.h / mypyc_util.h / int_ops.c and the live operator tables
+                            -> Gen/CFast.lean (typed mini-C -> Lean over BitVec; fails closed; self-test);
+        translate/irops.py  the final mypyc IR of the harness's integer functions -> Gen/IrOps.lean.
+      The theorems of Props/C15.lean are about those generated definitions (`ctx.prove`).
+2. K  one mypyc-compiled harness module (harness/c15/gen.py: a function per operation × type, ≈ 570 functions; opt
+      levels 0 and 3; C compiled from the checked tree's lib-rt) is driven in a worker subprocess on the boundary set
+      and on random operands.  Every case is evaluated up to three ways: CPython (the same source, interpreted), the
+      compiled module, and — where the operation maps to a translated C function, to the hand model of the Python-side
+      lowering, or to the conversion / true-division model — the Lean side (Driver/C15.lean).  The specification the
+      theorems are stated against (Tagged.pyAnd …, Int.fdiv/fmod) is itself run against CPython.
+3. S  the search is the same run: a case on which the model contradicts Python's result (possible only when a proof
+      obligation broke) is by construction also a compiled-vs-CPython case; a concrete difference inside the
+      property's domain is reported with the smallest operands found for that function (ctx.report); a broken
+      obligation / tie without such a case ends in `no-failing-input-found`, the replay naming the theorems and the
+      model counterexamples (e.g. `CPyTagged_TooBig(-2^62) = 1`).
+
+The oracle demands exactly what the property states (see `judge`): int/bool — result or exception type equal to
+CPython's (negative `**` exponents excluded); fixed width — equal where the exact result fits, ZeroDivisionError, u8
+`+ - *` modulo 256, shift counts outside [0, width) excluded, `int -> iN`: some exception iff out of range; float —
+equal bit for bit (results that are complex in CPython excluded).
+
+Dev note: the worker is a subprocess so that a crash of compiled code (SIGFPE/SIGSEGV under a broken tree) is an
+observation (`crash signalN`), not a failure of the check.
 """
 from __future__ import annotations
 
@@ -171,19 +185,24 @@ def norm_cases(ctx: Ctx, fn: gen.Fn, B: list[int]) -> list[tuple[gen.Fn, list, s
     return out
 
 
-def make_cases(ctx: Ctx, fns: list[gen.Fn]) -> list[tuple[gen.Fn, list, str]]:
+def iter_cases(ctx: Ctx, fns: list[gen.Fn]):
+    """Generator of (function, operands, stream).  Quick ≈ 4·10^5 cases, thorough ≈ 8·10^6 (× 2 opt levels)."""
     rng = ctx.rng
     B, F = boundary_ints(), boundary_floats()
     full_cap = ctx.pick(6000, 10 ** 9)
     sample_n = ctx.pick(500, 4000)
-    nrand = {"int": ctx.pick(1500, 200000), "fixed": ctx.pick(400, 40000), "float": ctx.pick(600, 40000),
-             "mixedfloat": ctx.pick(150, 10000), "mixed": ctx.pick(150, 10000), "const": ctx.pick(60, 4000),
-             "fixedconst": ctx.pick(60, 4000), "conv": ctx.pick(200, 10000), "convfixed": ctx.pick(60, 4000),
+    nrand = {"int": ctx.pick(1500, 80000), "fixed": ctx.pick(400, 20000), "float": ctx.pick(600, 25000),
+             "mixedfloat": ctx.pick(150, 8000), "mixed": ctx.pick(150, 8000), "const": ctx.pick(60, 2000),
+             "fixedconst": ctx.pick(60, 2000), "conv": ctx.pick(200, 12000), "convfixed": ctx.pick(60, 2000),
              "bool": 0}
-    cases: list[tuple[gen.Fn, list, str]] = []
+    # the known-finding witnesses come first, so the classes stay visible whatever else happens
+    byname = {f.name: f for f in fns}
+    yield (byname["tdiv_int"], [2 ** 53 + 1, 3], "witness")
+    yield (byname["eq_int_float"], [2 ** 53 + 1, 2.0 ** 53], "witness")
+    yield (byname["lt_float_int"], [1.5, 10 ** 400], "witness")
     for fn in fns:
         if fn.group == "norm":
-            cases.extend(norm_cases(ctx, fn, B))
+            yield from norm_cases(ctx, fn, B)
             continue
         vs = [values_for(t, B, F) for t in fn.params]
         total = 1
@@ -197,15 +216,9 @@ def make_cases(ctx: Ctx, fns: list[gen.Fn]) -> list[tuple[gen.Fn, list, str]]:
         else:
             combos = [[rng.choice(vs[0]), rng.choice(vs[1])] for _ in range(sample_n)]
         for c in combos:
-            cases.append((fn, c, "boundary"))
+            yield (fn, c, "boundary")
         for _ in range(nrand.get(fn.group, 0)):
-            cases.append((fn, [rand_for(t, rng) for t in fn.params], "random"))
-    # the known-finding witnesses are always present, so the classes stay visible
-    byname = {f.name: f for f in fns}
-    cases.append((byname["tdiv_int"], [2 ** 53 + 1, 3], "witness"))
-    cases.append((byname["eq_int_float"], [2 ** 53 + 1, 2.0 ** 53], "witness"))
-    cases.append((byname["lt_float_int"], [1.5, 10 ** 400], "witness"))
-    return cases
+            yield (fn, [rand_for(t, rng) for t in fn.params], "random")
 
 
 # ------------------------------------------------------------------------------- building the harness
@@ -635,6 +648,35 @@ def helper_search(ctx: Ctx, inv: dict) -> list[str]:
     return bad
 
 
+SPEC_OPS = {"and": lambda a, b: a & b, "or": lambda a, b: a | b, "xor": lambda a, b: a ^ b,
+            "fdiv": lambda a, b: a // b, "fmod": lambda a, b: a % b, "shl": lambda a, b: a << b, "shr": lambda a, b: a >> b}
+
+
+def spec_validation(ctx: Ctx) -> list[str]:
+    """The specification side of the theorems (Tagged.pyAnd/pyOr/pyXor/pyShl/pyShr, Int.fdiv/fmod) evaluated by the
+    driver on boundary and random integers must be what CPython computes."""
+    rng = ctx.rng
+    B = boundary_ints()
+    pairs = [(a, b) for a in B[::2] for b in B[::3]] + [(rand_int(rng), rand_int(rng)) for _ in range(ctx.pick(1500, 20000))]
+    lines, want = [], []
+    for op, f in SPEC_OPS.items():
+        for a, b in pairs:
+            if op in ("fdiv", "fmod") and b == 0:
+                continue
+            if op in ("shl", "shr"):
+                b = abs(b) % 200
+            lines.append("S %s %d %d %d %d" % (op, a < 0, abs(a), b < 0, abs(b)))
+            want.append((op, a, b, f(a, b)))
+    outs = ctx.lean_driver("Driver/C15.lean", lines)
+    bad = []
+    for (op, a, b, w), o in zip(want, outs):
+        ctx.dist("specification_checks", op)
+        if o != "val %d %d" % (w < 0, abs(w)):
+            bad.append(f"specification `{op}`({a}, {b}) evaluates to `{o}`, CPython computes {w}")
+    ctx.count("traces_validated_against_impl", len(lines))
+    return bad
+
+
 def failing_theorems(log: str) -> list[str]:
     """Names of the theorems whose proofs failed, from lake's `error: <file>:<line>:<col>` lines."""
     import re
@@ -685,7 +727,7 @@ def main(ctx: Ctx) -> None:
     except cfast.Unsupported as e:
         translated = False
         ctx.broken_ties.append(f"translate/cfast.py rejects the current sources (fail closed): {e}")
-        inv = json.load(open(cfast.OUT_JSON)) if os.path.exists(cfast.OUT_JSON) else None
+        inv = None          # the generated definitions on disk are stale: no model evaluation, search on the real code only
     if translated:
         try:
             irops.main()
@@ -694,6 +736,7 @@ def main(ctx: Ctx) -> None:
             ctx.coverage["ir_functions_not_translated"] = len(irinv["skipped"])
         except cfast.Unsupported as e:
             translated = False
+            inv = None
             ctx.broken_ties.append(f"translate/irops.py rejects the IR of the harness functions (fail closed): {e}")
     proved = False
     if translated:
@@ -709,25 +752,124 @@ def main(ctx: Ctx) -> None:
         "out-of-line slow paths of int_ops.c (CPyTagged_Add_ …): trusted to compute CPython's result (Tagged.slowSpec); "
         "exercised by the compiled harness on long operands",
         "gcc's translation of the C subset (exercised by the compiled-harness correspondence at -O0 and -O3)",
-        "CPython 3.12 as the oracle; float operations and int<->float conversions: correspondence only (no Lean model)")
+        "CPython 3.12 as the oracle; float arithmetic / comparison / pow / mod: correspondence only (no Lean model); "
+        "int -> double conversion and int / int: Model/FloatConv.lean, validated against both CPython and the compiled code",
+        "translate/irops.py: semantics of the IR subset as emitted by mypyc/codegen/emitfunc.py (C types of registers, "
+        "signed casts); opaque runtime calls (CPyTagged_IsLt_, CPyLong_AsInt64, CPyTagged_FromInt64) follow their success edge",
+        "hand model of mypyc/lower/int_ops.py and the fixed-width part of ll_builder.py (Model/FixedWidth.lean): tied to the "
+        "regenerated IR by the `ir_*` theorems and to the compiled code by the correspondence")
+    ctx.assume("boxed (long) tagged ints are normalised: a heap int never holds a value that fits 63 bits "
+               "(Tagged.Valuation.normalised; observed through the `norm_*` harness functions)",
+               "the out-of-line functions meet Tagged.slowSpec (they call CPython's PyNumber_* / RichCompare)")
 
-    # 2. cases, three evaluators
-    cases = make_cases(ctx, fns)
+    # 2. cases, three evaluators — processed in chunks so that memory stays bounded in the thorough tier
     tables = load_tables(inv) if inv else {"binary": {}, "unary": {}}
+    st = State()
+    helper_bad: list[str] = []
+    if inv:
+        try:
+            helper_bad = helper_search(ctx, inv)
+        except ToolFailure as e:
+            if proved:
+                raise
+            st.model_ok = False
+            ctx.broken_ties.append("Lean driver cannot evaluate the regenerated definitions: " + str(e)[:500])
+    spec_bad = spec_validation(ctx) if inv else []
+    for b in spec_bad[:3]:
+        ctx.violation("the specification the theorems are stated against is not CPython's operator: " + b,
+                      {"broken": "Model/Tagged.lean specification vs CPython", "detail": b}, found_input=False)
+    if helper_bad:
+        ctx.broken_ties.append("model counterexamples (translated helper vs its specification): " + "; ".join(helper_bad[:6]))
+    dirs = {opt: f.result() for opt, f in builds.items()}
+    chunk: list[tuple[gen.Fn, list, str]] = []
+    nchunk = 0
+    for case in iter_cases(ctx, fns):
+        chunk.append(case)
+        if len(chunk) >= CHUNK:
+            nchunk += 1
+            process_chunk(ctx, chunk, nchunk, dirs, tables, inv, proved, st)
+            chunk = []
+    if chunk:
+        nchunk += 1
+        process_chunk(ctx, chunk, nchunk, dirs, tables, inv, proved, st)
+
+    # 3. verdicts
+    nshape: dict[str, int] = {}
+    nreports = 0
+    for (shape, fname), g in sorted(st.groups.items(), key=lambda kv: size_of(kv[1]["best"])):
+        nshape[shape] = nshape.get(shape, 0) + 1
+        if nshape[shape] > 3 or nreports >= 8:
+            continue
+        nreports += 1
+        d = g["best"]                # the smallest operands on which this function fails
+        fn, args = d["fn"], d["args"]
+        ctx.report(d["obs"], f"{fn.name}{show_args(args)} (`{fn.expr}`, opt level {d['opt']}): compiled gives "
+                   f"`{d['rc']}`, CPython gives `{d['ri']}` [{d['why']}]; {g['n']} failing case(s) of this function"
+                   + (f"; Lean model: {d['mprob']}" if d["mprob"] else "")
+                   + ("; the Lean model predicts the compiled value" if d["mpred"] == d["rc"] else ""),
+                   {"function": fn.name, "expr": fn.expr, "args": [enc_arg(a) for a in args], "opt": d["opt"],
+                    "compiled": d["rc"], "cpython": d["ri"], "model": d["mo"], "why": d["why"],
+                    "failing_cases_of_this_function": g["n"]})
+    for m in sorted(st.model_only, key=size_of)[:3]:
+        fn, args = m["fn"], m["args"]
+        ctx.violation(f"correspondence broken: Lean model ({m['mo'][0]}) on {fn.name}{show_args(args)}: {m['what']}",
+                      {"broken": "Lean model (Gen/CFast.lean or Model/FixedWidth.lean) vs compiled harness", "function": fn.name,
+                       "args": [enc_arg(a) for a in args], "opt": m["opt"], "model": m["mo"], "compiled": m["rc"]},
+                      found_input=False)
+    ctx.count("traces_validated_against_impl", st.nlines * len(dirs))
+    ctx.count("disagreements_checked", st.ndiff + st.model_problems)
+    ctx.coverage["cases_compiled_vs_cpython"] = st.njobs * len(dirs)
+    ctx.coverage["cases_with_model_prediction"] = st.nmodel
+    ctx.coverage["excluded_too_large_to_evaluate"] = st.excluded_large
+    ctx.coverage["differences_by_class"] = st.reported
+    ctx.coverage["harness_functions"] = len(fns)
+    ctx.coverage["chunks"] = nchunk
+    ctx.coverage["broken_ties"] = list(ctx.broken_ties)
+    if (not proved or not st.model_ok or helper_bad) and not ctx.violations:
+        ctx.violation("the Lean development for C15 no longer checks against the current sources and no operand pair was "
+                      "found on which compiled code and CPython differ",
+                      {"broken": ctx.broken_ties, "searched_cases": st.njobs * len(dirs)}, found_input=False)
+
+
+CHUNK = 250000
+
+
+class State:
+    def __init__(self) -> None:
+        self.groups: dict[tuple[str, str], dict] = {}     # (difference shape, function) -> {"best": smallest diff, "n": count}
+        self.model_only: list[dict] = []
+        self.reported: dict[str, int] = {}
+        self.model_problems = 0
+        self.ndiff = 0
+        self.njobs = 0
+        self.nlines = 0
+        self.nmodel = 0
+        self.excluded_large = 0
+        self.model_ok = True
+
+
+def size_of(d: dict) -> tuple:
+    from fractions import Fraction
+    mags = [abs(int(a)) if isinstance(a, int) else (abs(Fraction(a)) if a == a and abs(a) != float("inf") else 10 ** 400)
+            for a in d["args"]]
+    return (max(mags) if mags else 0, sum(mags), d["opt"])
+
+
+def process_chunk(ctx: Ctx, cases: list[tuple[gen.Fn, list, str]], nchunk: int, dirs: dict[str, str], tables: dict,
+                  inv: dict | None, proved: bool, st: State) -> None:
     model_idx: list[tuple[int, str]] = []
     lines: list[str] = []
-    excluded_large = 0
     jobs: list[tuple[int, str, list]] = []
     for i, (fn, args, _) in enumerate(cases):
         if too_large(fn, args):
-            excluded_large += 1
+            st.excluded_large += 1
             continue
         jobs.append((i, fn.name, args))
-        for ml in (model_lines(fn, args, tables) if inv else []):
-            lines.append(ml[0])
-            model_idx.append((i, ml[1]))
+        if inv and st.model_ok:
+            for ml in model_lines(fn, args, tables):
+                lines.append(ml[0])
+                model_idx.append((i, ml[1]))
     model_out: dict[int, list[tuple[str, str]]] = {}
-    model_ok = True
     if lines:
         try:
             outs = ctx.lean_driver("Driver/C15.lean", lines)
@@ -738,26 +880,14 @@ def main(ctx: Ctx) -> None:
         except ToolFailure as e:
             if proved:
                 raise
-            model_ok = False
+            st.model_ok = False
             ctx.broken_ties.append("Lean driver cannot evaluate the regenerated definitions: " + str(e)[:500])
-    helper_bad: list[str] = []
-    if inv and model_ok:
-        try:
-            helper_bad = helper_search(ctx, inv)
-        except ToolFailure:
-            if proved:
-                raise
-    if helper_bad:
-        ctx.broken_ties.append("model counterexamples (translated helper vs its specification): " + "; ".join(helper_bad[:6]))
-    dirs = {opt: f.result() for opt, f in builds.items()}
     with ThreadPoolExecutor(max_workers=2) as ex2:
-        futs = {opt: ex2.submit(run_worker, ctx, dirs[opt], jobs, "O" + opt) for opt in dirs}
+        futs = {opt: ex2.submit(run_worker, ctx, dirs[opt], jobs, f"O{opt}_{nchunk}") for opt in dirs}
         results = {opt: f.result() for opt, f in futs.items()}
-
-    # 3. compare
-    diffs: list[dict] = []          # concrete compiled-vs-CPython differences inside the domain
-    model_only: list[dict] = []     # the model contradicts Python / the compiled code, the compiled code is right
-    model_problems = 0
+    st.njobs += len(jobs)
+    st.nlines += len(lines)
+    st.nmodel += len(model_out)
     for i, name, args in jobs:
         fn = cases[i][0]
         stream = cases[i][2]
@@ -768,14 +898,15 @@ def main(ctx: Ctx) -> None:
             if mo is None or (p1 and not mprob):
                 mo, mprob, mpred = cand, p1, p2
         if mprob:
-            model_problems += 1
+            st.model_problems += 1
         anydiff = False
+        ckey = "%s:%x" % (name, hash(tuple(repr(a) for a in args)) & 0xFFFFFFFFFFFFFFF)
         for opt, res in results.items():
             ri, rc = res.get(i, ("missing - -", "missing - -"))
             if ri.startswith("skipped"):
                 continue
             verdict, why = judge(fn, args, ri, rc)
-            ctx.case((name, [repr(a) for a in args], opt), nontrivial=verdict != "excluded")
+            ctx.case(ckey + opt, nontrivial=verdict != "excluded")
             if opt == "3":
                 ctx.dist("group", fn.group)
                 ctx.dist("operator", fn.op)
@@ -788,67 +919,35 @@ def main(ctx: Ctx) -> None:
                     ctx.dist("tagged_operand_repr", "/".join("short" if TAG_MIN <= a <= TAG_MAX else "long" for a in ints))
             if verdict == "DIFF":
                 anydiff = True
-                diffs.append({"fn": fn, "args": args, "opt": opt, "ri": ri, "rc": rc, "why": why, "mo": mo, "mprob": mprob,
-                              "mpred": mpred, "obs": known_class(fn, args, ri, rc)})
+                st.ndiff += 1
+                obs = known_class(fn, args, ri, rc)
+                d = {"fn": fn, "args": args, "opt": opt, "ri": ri, "rc": rc, "why": why, "mo": mo, "mprob": mprob,
+                     "mpred": mpred, "obs": obs}
+                shape = json.dumps({k: v for k, v in obs.items() if k != "function"}, sort_keys=True)
+                g = st.groups.setdefault((shape, fn.name), {"best": d, "n": 0})
+                g["n"] += 1
+                if size_of(d) < size_of(g["best"]):
+                    g["best"] = d
+                key = obs["class"] + ("/" + obs["effect"] if "effect" in obs else "") + ":" + fn.name
+                st.reported[key] = st.reported.get(key, 0) + 1
             elif mpred is not None and verdict == "same" and not mprob and \
                     not (mpred == rc or (mpred == "exc * -" and rc.startswith("exc "))):
-                model_only.append({"fn": fn, "args": args, "opt": opt, "mo": mo, "rc": rc,
-                                   "what": f"predicts `{mpred}`, the compiled code (= CPython) gives `{rc}`"})
-        if mprob and not anydiff:
-            model_only.append({"fn": fn, "args": args, "opt": "-", "mo": mo, "rc": None,
-                               "what": f"{mprob}; not reproduced by the compiled code"})
-
-    def size(d: dict) -> tuple:
-        from fractions import Fraction
-        mags = [abs(int(a)) if isinstance(a, int) else (abs(Fraction(a)) if a == a and abs(a) != float("inf") else 10 ** 400)
-                for a in d["args"]]
-        return (max(mags) if mags else 0, sum(mags), d["opt"])
-
-    reported: dict[str, int] = {}
-    groups: dict[tuple[str, str], list[dict]] = {}
-    for d in diffs:
-        shape = json.dumps({k: v for k, v in d["obs"].items() if k != "function"}, sort_keys=True)
-        groups.setdefault((shape, d["fn"].name), []).append(d)
-        key = d["obs"]["class"] + ("/" + d["obs"]["effect"] if "effect" in d["obs"] else "") + ":" + d["fn"].name
-        reported[key] = reported.get(key, 0) + 1
-    nshape: dict[str, int] = {}
-    nreports = 0
-    for (shape, fname), ds in sorted(groups.items(), key=lambda kv: size(min(kv[1], key=size))):
-        nshape[shape] = nshape.get(shape, 0) + 1
-        if nshape[shape] > 3 or nreports >= 8:
-            continue
-        nreports += 1
-        d = min(ds, key=size)        # the smallest operands on which this function fails
-        fn, args = d["fn"], d["args"]
-        ctx.report(d["obs"], f"{fn.name}{show_args(args)} (`{fn.expr}`, opt level {d['opt']}): compiled gives "
-                   f"`{d['rc']}`, CPython gives `{d['ri']}` [{d['why']}]; {len(ds)} failing case(s) of this function"
-                   + (f"; Lean model: {d['mprob']}" if d["mprob"] else "")
-                   + ("; the Lean model predicts the compiled value" if d["mpred"] == d["rc"] else ""),
-                   {"function": fn.name, "expr": fn.expr, "args": [enc_arg(a) for a in args], "opt": d["opt"],
-                    "compiled": d["rc"], "cpython": d["ri"], "model": d["mo"], "why": d["why"],
-                    "failing_cases_of_this_function": len(ds)})
-    for m in sorted(model_only, key=size)[:3]:
-        fn, args = m["fn"], m["args"]
-        ctx.violation(f"correspondence broken: Lean model ({m['mo'][0]}) on {fn.name}{show_args(args)}: {m['what']}",
-                      {"broken": "Lean model (Gen/CFast.lean or Model/FixedWidth.lean) vs compiled harness", "function": fn.name,
-                       "args": [enc_arg(a) for a in args], "opt": m["opt"], "model": m["mo"], "compiled": m["rc"]},
-                      found_input=False)
-    ndiff = len(diffs)
-    ctx.count("traces_validated_against_impl", len(lines) * len(results))
-    ctx.count("disagreements_checked", ndiff + model_problems)
-    ctx.coverage["cases_compiled_vs_cpython"] = len(jobs) * len(results)
-    ctx.coverage["cases_with_model_prediction"] = len(model_out)
-    ctx.coverage["excluded_too_large_to_evaluate"] = excluded_large
-    ctx.coverage["differences_by_class"] = reported
-    ctx.coverage["harness_functions"] = len(fns)
-    ctx.sample({"case": [jobs[len(jobs) // 3][1], [repr(a) for a in jobs[len(jobs) // 3][2]]],
-                "result": results["3"].get(jobs[len(jobs) // 3][0])})
-    if lines:
-        ctx.sample({"model_line": lines[len(lines) // 2], "model_out": model_out.get(model_idx[len(lines) // 2][0])})
-    if (not proved or not model_ok or helper_bad) and not ctx.violations:
-        ctx.violation("the Lean development for C15 no longer checks against the current sources and no operand pair was "
-                      "found on which compiled code and CPython differ",
-                      {"broken": ctx.broken_ties, "searched_cases": len(jobs) * len(results)}, found_input=False)
+                if len(st.model_only) < 200:
+                    st.model_only.append({"fn": fn, "args": args, "opt": opt, "mo": mo, "rc": rc,
+                                          "what": f"predicts `{mpred}`, the compiled code (= CPython) gives `{rc}`"})
+        if mprob and not anydiff and len(st.model_only) < 200:
+            st.model_only.append({"fn": fn, "args": args, "opt": "-", "mo": mo, "rc": None,
+                                  "what": f"{mprob}; not reproduced by the compiled code"})
+    if nchunk == 1 and jobs:
+        j = jobs[len(jobs) // 3]
+        ctx.sample({"case": [j[1], [repr(a) for a in j[2]]], "result": results["3"].get(j[0])})
+        if lines:
+            ctx.sample({"model_line": lines[len(lines) // 2], "model_out": model_out.get(model_idx[len(lines) // 2][0])})
+    # job / output files of this chunk are not needed any more
+    for d in dirs.values():
+        for f in os.listdir(d):
+            if f.startswith(("jobs_", "out_")):
+                os.unlink(os.path.join(d, f))
 
 
 def replay(ctx: Ctx, path: str) -> int:
